@@ -35,6 +35,7 @@
   `Tpl.refreshed` is a GHOST field (the time of the most recent (re)transmission of the stored
   template); no decision of `step` reads it.
 -/
+import IpfixModel.Generated.Consts
 namespace Ipfix.Timers
 
 /-- (observation domain id, template id) -/
@@ -100,6 +101,10 @@ structure Obs where
   armed : List Armed
   pending : List Cb
   deriving DecidableEq, Repr, Inhabited
+
+/-- initCollectingProcess: a UDP collector configured with TemplateTTL = 0 uses the protocol's default lifetime
+    (`entities.TemplateTTL`, regenerated from the source as `Generated.cTemplateTTL`) -/
+def effectiveTTL (configured : Nat) : Nat := if configured = 0 then Generated.cTemplateTTL else configured
 
 def init (ttl : Nat) : TState :=
   { now := 0, tpls := [], armed := [], pending := [], nextOid := 0, nextCid := 0, ttl := ttl }
